@@ -46,7 +46,14 @@ FCount == IFn("count", <<Param("e", TUnit), Param("acc", T8)>>, <<T8>>,
 TRow == TList(T8, 4)
 FRows == IFn("rows", <<Param("e", TRow), Param("acc", T8)>>, <<T8>>,
              BlkE(<<>>, ECall(CFn("mix"), <<Dec(9), ECall(CFold("mix", 4), <<V("e"), V("acc")>>)>>)))
-Defs == <<FMix, FPoison, FLast2, FFlag, FOpt, FCount, FRows>>
+\* compound elements of which the function reads one component only (the other is never inspected by the program)
+TP88 == TTup(<<T8, T8>>)
+FFirst == IFn("first", <<Param("e", TP88), Param("acc", T8)>>, <<T8>>,
+              BlkE(<<SLet(PTup(<<PId("a"), PIgn>>), TP88, V("e"))>>, ECall(CFn("mix"), <<V("a"), V("acc")>>)))
+TO88 == TTup(<<TOpt(T8), T8>>)
+FSecond == IFn("second", <<Param("e", TO88), Param("acc", T8)>>, <<T8>>,
+               BlkE(<<SLet(PTup(<<PIgn, PId("b")>>), TO88, V("e"))>>, ECall(CFn("mix"), <<V("b"), V("acc")>>)))
+Defs == <<FMix, FPoison, FLast2, FFlag, FOpt, FCount, FRows, FFirst, FSecond>>
 
 Bounds == IF Thorough THEN {2, 4, 8, 16, 32, 64, 128, 256, 512} ELSE {2, 4, 8, 16, 32, 64, 128, 256}
 FullLen == IF Thorough THEN 64 ELSE 16
@@ -64,12 +71,16 @@ Kinds == {[f |-> "mix", te |-> T8, ta |-> T8, init |-> Dec(1)],
           [f |-> "flagged", te |-> TFlag, ta |-> T8, init |-> Dec(2)],
           [f |-> "opts", te |-> TO2, ta |-> T8, init |-> Dec(0)],
           [f |-> "count", te |-> TUnit, ta |-> T8, init |-> Dec(0)],
-          [f |-> "rows", te |-> TRow, ta |-> T8, init |-> Dec(1)]}
-NarrowKinds == {"count", "rows"}     \* kinds checked at the small bounds only
+          [f |-> "rows", te |-> TRow, ta |-> T8, init |-> Dec(1)],
+          [f |-> "first", te |-> TP88, ta |-> T8, init |-> Dec(1)],
+          [f |-> "second", te |-> TO88, ta |-> T8, init |-> Dec(1)]}
+NarrowKinds == {"count", "rows", "first", "second"}     \* kinds checked at the small bounds only
 ElemOf(kd, i) == CASE kd.te = T8 -> (IF kd.f = "poison" /\ i = 5 THEN U8(200) ELSE Elem8(i))
                    [] kd.te = TFlag -> ElemFlag(i)
                    [] kd.te = TO2 -> (IF kd.f = "opts" /\ i = 9 THEN VSome(VU(<<1, 1>>)) ELSE ElemOpt(i))
                    [] kd.te = TUnit -> VUnit
+                   [] kd.te = TP88 -> VTup(<<U8(7 * i + 3), U8(255 - i)>>)
+                   [] kd.te = TO88 -> VTup(<<IF i % 2 = 0 THEN VNone ELSE VSome(U8(255 - i)), U8(7 * i + 3)>>)
                    [] kd.te = TRow -> VList([j \in 1..(i % 4) |-> U8(13 * i + 5 * j + 1)])
 ListOfLen(kd, n) == VList([i \in 1..n |-> ElemOf(kd, i)])
 
